@@ -10,7 +10,7 @@ node), and — non-pruning — each commit write failed, applied and not applied
 Each such way is an ordinary linear command list; its later behaviour is compared
 with a twin world that never opened the batch.
 """
-from ..core import HarnessError, Stats, Violation, deep, hx, unhx
+from ..core import HarnessError, Stats, Violation, deep, fresh, hx, unhx
 from ..hgen import HistoryGen, make_pool, make_values, probe_keys, rare_huge
 from ..hworld import ClientAbort, HWorld
 
@@ -42,6 +42,10 @@ PROBES = [
     "pruning-batch",
     "non-pruning-batch",
     "bystander-batch-while-open",
+    "batch-ref-count-asked-by-subscript",
+    "batch-root-assigned-to-earlier-root",
+    "outer-trie-written-while-batch-open",
+    "commit-while-root-node-unreadable",
 ]
 FAULTS = [
     "batch-abort",
@@ -77,6 +81,64 @@ class World(HWorld):
         self.judge = judge
         self.commit_writes = None
         self.batch_roots = []
+        # root -> contents, for roots the outer (non-pruning) trie has had
+        self.known = {self.handles[0].trie.root_hash: {}}
+
+    def after(self, h, cmd, outcome):
+        if not h.prune and h.bgen is None:
+            self.known[h.trie.root_hash] = dict(h.model)
+
+    # -- less-used entry points of the batch handle ------------------------------
+    def op_bask(self, h, cmd):
+        """Inside the block the client asks the batch handle, by subscript, how often some
+        nodes the batch has buffered (written or deleted) are referenced.  ref_count is a
+        public property; asking must not change what the batch does afterwards."""
+        if h.bgen is None:
+            return "skip"
+        seen = sorted(k for k in h.btrie.db.cache if isinstance(k, bytes))
+        n = 0
+        for x in seen[: int(cmd.get("n", 4))]:
+            try:
+                h.btrie.ref_count[x]
+            except KeyError:
+                pass  # a table without default entries answers "not counted" this way
+            n += 1
+        self.st.probe("batch-ref-count-asked-by-subscript")
+        return f"asked:{n}"
+
+    def op_bassign(self, h, cmd):
+        """First thing in the block, the client points the batch handle at a root the trie
+        had earlier (a rewind): the batch then works from there, and on normal exit the
+        outer trie adopts the batch's final root like any other."""
+        if h.bgen is None or h.prune or h.bver or not self.known:
+            return "skip"
+        roots = sorted(self.known)
+        root = roots[cmd["root"] % len(roots)]
+        h.btrie.root_hash = fresh(root)
+        h.bmodel = dict(self.known[root])
+        self.batch_roots.append(root)
+        self.st.probe("batch-root-assigned-to-earlier-root")
+        return "ok"
+
+    def op_oset(self, h, cmd):
+        """While the block is open the outer (non-pruning) trie itself is written to.  C05
+        lets the block's normal exit overwrite that: the outer root becomes the batch's
+        final root.  (What an *aborted* block leaves is then the outer trie's own last
+        state; this command is only generated in blocks that commit.)"""
+        if h.bgen is None or h.prune:
+            return "skip"
+        k, v = unhx(cmd["k"]), unhx(cmd["v"])
+        frozen, self.db.mon_frozen = self.db.mon_frozen, False
+        try:
+            status, res = self.call(h.trie.set, k, v)
+        finally:
+            self.db.mon_frozen = frozen
+        if status == "exc":
+            self.viol("abort-later-divergence", f"a direct set on the outer trie while its batch was open raised {res!r}")
+        # the outer trie's own writes are part of what was there "before" for the exit checks
+        h.pre = (h.trie.root_hash, dict(self.db.raw()), None)
+        self.st.probe("outer-trie-written-while-batch-open")
+        return "ok"
 
     # -- an unrelated trie of the same process runs a whole batch of its own (possibly while
     # the batch under test is open): blocks must not share anything
@@ -323,6 +385,12 @@ def generate(rng):
             suffix.append(g.mutation("live"))
         g.lookups_after("live", suffix)
     suffix.append({"op": "readback"})
+    # less-used entry points: ask the batch handle for reference counts in mid-block;
+    # rewind the batch to an earlier root before anything else happens in it
+    for _ in range(rng.choice([0, 0, 0, 1, 2])):
+        ops.insert(rng.randrange(len(ops) + 1), {"op": "bask", "n": rng.choice([2, 4, 8])})
+    if not prune and rng.random() < 0.2:
+        ops.insert(0, {"op": "bassign", "root": rng.randrange(1000)})
     return {
         "cfg": {"prune": prune, "cache": cache, "rc": rng.choice(["defaultdict", "defaultdict", "counter"]), "store": rng.choice(["min", "min", "dict"]), "probe": [hx(x) for x in probes[:40]]},
         "prefix": prefix,
@@ -366,6 +434,15 @@ def explore(rng, st):
         execute(variant(base, (p, [op, {"op": "bcommit"}])), st)
         if st.faults["batch-abort-library-exception"] > before:
             st.probe("abort-by-library-exception")
+    if not prune:
+        # 5. the store cannot produce the batch's final root node when the block exits
+        # (the root is adopted all the same), and 6. the outer trie itself is written to
+        # while the block is open and the block then exits normally (at every position)
+        execute(variant(base, (k, [{"op": "bcommit", "wh": "all"}])), st)
+        st.probe("commit-while-root-node-unreadable")
+        ov = {"op": "oset", "k": hx(rng.choice([unhx(c["k"]) for c in ops if "k" in c] or [b"\x01"])), "v": "6f75746572"}
+        for p in sorted({0, k, rng.randrange(k + 1)}):
+            execute(variant(base, (p, [ov, {"op": "bcommit"}])), st)
     # 4. every commit write fails (non-pruning only, as the statement says)
     if not prune:
         for n in range(1, writes + 1):
